@@ -642,14 +642,21 @@ fn check_c05(pre: &EState, op: &EOp, post: &EState) -> Vec<String> {
 
 // -------------------------------------------------------------------------------------- generator
 
-const SYL_POOL: [u16; 10] = [0x2A48, 0x0208, 0x1404, 0x0404, 0x2208, 0x7C10, 0x0001, 0x0080, 0x1A9B, 0xFFFF];
+// syllable codes only (since the repair of C13's F47 `Syllable::try_from` rejects every other value): 0x2BED is the largest one
+const SYL_POOL: [u16; 10] = [0x2A48, 0x0208, 0x1404, 0x0404, 0x2208, 0x2A05, 0x0001, 0x0080, 0x1A9B, 0x2BED];
 const CHR_POOL: [char; 8] = ['a', 'Z', '1', ' ', '，', '測', '\u{10348}', '~'];
 const TXT_POOL: [char; 8] = ['測', '試', '冊', '策', 'a', '，', '\u{20000}', '一'];
 
 fn rand_sym(rng: &mut Rng) -> Symbol {
     match rng.below(10) {
         0..=4 => Symbol::Syllable(Syllable::try_from(*rng.pick(&SYL_POOL)).unwrap()),
-        5 => Symbol::Syllable(Syllable::try_from(rng.range(1, 65535) as u16).unwrap()),
+        5 => loop {
+            // a random syllable code: initial <= 21, medial <= 3, rime <= 13, tone <= 5, not all absent
+            let c = (rng.below(22) << 9 | rng.below(4) << 7 | rng.below(14) << 3 | rng.below(6)) as u16;
+            if c != 0 {
+                break Symbol::Syllable(Syllable::try_from(c).unwrap());
+            }
+        },
         6..=8 => Symbol::Char(*rng.pick(&CHR_POOL)),
         _ => Symbol::Char(char::from_u32(rng.range(0x20, 0x2FFFF) as u32).unwrap_or('?')),
     }
